@@ -5,9 +5,9 @@ import json, os, re
 HERE = os.path.dirname(os.path.abspath(__file__))
 LEAN = os.path.join(os.path.dirname(HERE), "lean")
 NOT_YET = {
-    "C01": ["chained-simple/split/external bodies are tied by the correspondence only (the tagged family is tied by the translator + bridge theorems for all inputs; the unrolled chained reader is transcribed literally and proved equal to the format-level reader, the transcription itself is tied by the correspondence; a machine translation of it exists in Gen/CChained.lean)"],
+    "C01": ["the reversed-layout (type byte last) and 32-bit convenience forms of the split / chained families are proved on the model and tied by the correspondence only; all nine families' put/get/length are proved on machine-translated code (the unrolled chained reader additionally as a literal transcription proved equal to the format-level reader)"],
     "C04": ["Elias gamma/delta bit definitions are carried with the Elias model under C02/C03 (code lengths proved there)"],
-    "C02": ["the FOR block reader: model = code on the correspondence stream and the monitors check the implementation, theorem not yet written (every codec round trip IS proved: delta, zigzag, FOR + random access, RLE ± header + random access, group + random access, dictionary, Elias gamma/delta, PFOR at every threshold, BP128 all four forms)"],
+    "C02": ["every codec round trip is a theorem on the model (incl. the FOR block reader: for_block_roundtrip); on machine-translated code: delta, zigzag, RLE ± header + random access, FOR decode + random access, group decode + random access; PFOR, BP128, Elias, dictionary and the FOR/group ENCODERS are tied by the correspondence only"],
     "C03": [],
     "C13": ["PFOR takes no capacity (its decoder trusts the stored count)"],
     "C16": ["Elias, BP128, adaptive, float metadata structs: monitors + correspondence only so far (FOR, RLE, group, PFOR are proved)"],
